@@ -9,7 +9,7 @@ from ..monitors import trace
 from ..oracles import genaudit
 from ..util import StepTimeout, time_limit
 
-ARCHS = ["homo", "endinit", "random", "block", "alternating", "stepgrowth", "star", "graft", "hyper", "lists", "comb"]
+ARCHS = ["homo", "endinit", "random", "block", "alternating", "stepgrowth", "star", "graft", "hyper", "lists", "comb", "sidecap"]
 CASE_TIMEOUT = 1500
 
 
@@ -134,7 +134,7 @@ def run_common(owner, case):
     else:
         for attempt in range(8):
             try:
-                subj = W.Subject(case["seed"] * 17 + attempt, arch=case["arch"], small=True, forced=[0.4, 1.1, 1.6, 2.2] if case["arch"] not in ("star", "hyper", "graft", "comb") else [0.4, 0.9])
+                subj = W.Subject(case["seed"] * 17 + attempt, arch=case["arch"], small=True, forced=[0.4, 1.1, 1.6, 2.2] if case["arch"] not in ("star", "hyper", "graft", "comb", "sidecap") else [0.4, 0.9])
             except ValueError:
                 continue
             if subj.closable:
